@@ -2,15 +2,30 @@
    Property theorems only; proofs live in Proofs/Access*.v. *)
 From CNV Require Import Base.Prelude Base.Str Spec.Runs Spec.Regions Model.Access
   Proofs.Access Proofs.AccessJoin Gen.AccessDefaults
-  Model.IvRow Spec.Cover Model.AccessPipe Proofs.AccessPipe.
+  Model.IvRow Spec.Cover Model.AccessPipe Proofs.AccessPipe
+  Model.AccessText Proofs.AccessPipeLib Proofs.AccessPipeline Proofs.AccessGenome
+  Proofs.AccessGenomeTotal Proofs.AccessText.
 
-(* For every FASTA record, whatever the line width (any cut of the sequence into
-   non-empty lines), the scanner returns exactly `runs` of the concatenated
-   sequence, in order. *)
+(* For every FASTA record, whatever the line width -- EVERY cut of the sequence into
+   lines, blank lines included (a blank line is skipped since fix 784419a; before it,
+   a blank line after an N produced an empty region) -- the scanner returns exactly
+   `runs` of the concatenated sequence, in order. *)
 Theorem C13_scan : forall lines : list string,
-  Forall (fun l => l <> ""%string) lines ->
   get_regions_record lines = runs isN_ascii (concat (map chars lines)).
 Proof. exact get_regions_record_runs. Qed.
+
+(* hence every reported region is non-empty, whatever the lines *)
+Theorem C13_scan_nonempty : forall lines : list string,
+  Forall (fun p => 0 <= fst p < snd p) (get_regions_record lines).
+Proof. exact get_regions_record_nonempty. Qed.
+
+(* the old failing input: NN followed by a blank line reports nothing; a blank line
+   inside a run does not split or shift it *)
+Example C13_scan_blank_lines :
+  get_regions_record ["NN"; ""]%string = [] /\
+  get_regions_record ["ACN"; ""; "NGT"]%string = [(0, 2); (4, 6)] /\
+  get_regions_record [""; "AC"; ""; ""; "GTN"; ""]%string = [(0, 4)].
+Proof. repeat split; reflexivity. Qed.
 
 (* ... and `runs` is the mathematical object of the property: it covers exactly
    the positions holding a character other than 'N' ... *)
@@ -90,3 +105,262 @@ Example C13_exclude_nested :
   exclude_all [(0, 100); (200, 300)] [[(10, 90); (20, 30)]; [(50, 250)]] = [(0, 10); (250, 300)]
   /\ Forall (fun ex => sorted_lo (to_rows ex)) [[(10, 90); (20, 30)]; [(50, 250)]].
 Proof. split; [vm_compute; reflexivity|repeat constructor; cbn; lia]. Qed.
+
+(* ------------------------------------------------------------------------------------------
+   The whole per-sequence pipeline  access_sequence g runs excls = join_regions g (exclude_all
+   runs excls).  An exclude table, as one sequence sees it, is [excl_ok]: every row has
+   lo < hi and the rows are sorted by start (what tabio.read leaves).
+
+   (a) Exclusion keeps the region list well-formed for join_regions: non-empty regions,
+   sorted, strictly separated (pieces of one run by an excluded row of positive length,
+   pieces of different runs by the original N gap), and covers exactly the kept bases. *)
+Theorem C13_exclude_wf : forall runs excls p,
+  wf_regions p runs -> Forall excl_ok excls ->
+  wf_regions p (exclude_all runs excls) /\
+  forall x, cov (exclude_all runs excls) x <-> kept runs excls x.
+Proof. exact exclude_all_correct. Qed.
+
+(* (b) Hence join never hits its assertion; with K = the non-N bases of the sequence that lie
+   in no exclude region, the result covers exactly K plus the small gaps of K (maximal
+   stretches outside K, shorter than g, with a base of K on either side); output regions are
+   non-empty, start at >= 0, sorted and separated by >= max 1 g bases; nothing is reported
+   exactly when K is empty (exclusion may remove a whole run, or everything). *)
+Theorem C13_pipeline : forall g (s : list ascii) excls,
+  Forall excl_ok excls ->
+  exists r, access_sequence g (runs isN_ascii s) excls = Some r /\
+    (forall x, cov r x <-> kept_seq s excls x \/ small_gap (kept_seq s excls) g x) /\
+    match r with
+    | [] => forall x, ~ kept_seq s excls x
+    | (a, b) :: t => 0 <= a < b /\ sep_from (Z.max 1 g) b t
+    end.
+Proof. exact access_sequence_scanned. Qed.
+
+(* the same for any well-formed region list in place of the scanner's output *)
+Theorem C13_pipeline_wf : forall g runs excls,
+  wf_regions (-1) runs -> Forall excl_ok excls ->
+  exists r, access_sequence g runs excls = Some r /\
+    (forall x, cov r x <-> kept runs excls x \/ small_gap (kept runs excls) g x) /\
+    match r with
+    | [] => forall x, ~ kept runs excls x
+    | (a, b) :: t => 0 <= a < b /\ sep_from (Z.max 1 g) b t
+    end.
+Proof. exact access_sequence_correct. Qed.
+
+(* min_gap_size 0 (also None -> 0, or negative): nothing is bridged *)
+Theorem C13_pipeline_nogap : forall g runs excls,
+  g <= 0 -> wf_regions (-1) runs -> Forall excl_ok excls ->
+  exists r, access_sequence g runs excls = Some r /\ forall x, cov r x <-> kept runs excls x.
+Proof. exact access_sequence_nogap. Qed.
+
+(* the bridged gaps of join_regions are exactly the small gaps of the input's cover *)
+Theorem C13_bridged_small_gap : forall g rest a0 b0 x,
+  a0 < b0 -> sep_from 1 b0 rest ->
+  (bridged g b0 rest x <-> small_gap (cov ((a0, b0) :: rest)) g x).
+Proof. exact bridged_small_gap. Qed.
+
+Example C13_pipeline_example :
+  (* ACGTNNACGTACNNNACGT: runs 0-4, 6-12, 15-19; exclude 0-4 (a whole run) and 8-9 *)
+  Forall excl_ok [[(0, 4); (8, 9)]] /\
+  access_sequence 2 (runs isN_ascii (chars "ACGTNNACGTACNNNACGT")) [[(0, 4); (8, 9)]] = Some [(6, 12); (15, 19)] /\
+  access_sequence 0 (runs isN_ascii (chars "ACGTNNACGTACNNNACGT")) [[(0, 4); (8, 9)]] = Some [(6, 8); (9, 12); (15, 19)] /\
+  access_sequence 5 (runs isN_ascii (chars "ACGT")) [[(0, 9)]] = Some [].
+Proof.
+  split; [|vm_compute; auto].
+  repeat constructor; cbn; lia.
+Qed.
+
+(* ------------------------------------------------------------------------------------------
+   Genome level: do_access over several sequences.  [flatten_recs recs] is the table
+   GA.from_rows(get_regions(...)): each sequence's regions under its name, in file order.
+   For distinct sequence names the result is, record by record in file order, nothing for a
+   sequence dropped by skip_noncanonical and otherwise the per-sequence pipeline on that
+   sequence's regions and on the rows of each exclude table that carry its name (sorted by
+   start, end); the call fails iff one of them fails.  Names that occur only in an exclude
+   table play no role; min_gap_size None counts as 0. *)
+Theorem C13_genome : forall g skip recs excls,
+  NoDup (map fst recs) ->
+  do_access g skip (flatten_recs recs) excls =
+  collect (map (per_record (gap_or_0 g) skip excls) recs).
+Proof. exact do_access_per_record. Qed.
+
+(* ... total and correct: with distinct names and exclude rows of positive length do_access
+   succeeds, and each sequence's part satisfies the statement of C13_pipeline ([seq_result]). *)
+Theorem C13_genome_total : forall g skip (seqs : list (string * list ascii)) excls,
+  NoDup (map fst seqs) -> Forall excl_rows_valid excls ->
+  exists parts, do_access g skip (flatten_recs (scanned seqs)) excls = Some (concat parts) /\
+                Forall2 (seq_result (gap_or_0 g) skip excls) seqs parts.
+Proof. exact do_access_genome. Qed.
+
+(* the exclude rows one sequence sees cover exactly the file's rows carrying its name *)
+Theorem C13_exclude_per_chromosome : forall c ex x,
+  cov (sort_pairs (rows_of c ex)) x <-> exists r, In r ex /\ t_name r = c /\ snd (fst r) <= x < snd r.
+Proof. exact cov_excls_for. Qed.
+
+Example C13_genome_example :
+  do_access (Some 1) true
+    (flatten_recs [("chr2", [(0, 4)]); ("chrM", [(0, 9)]); ("chr1", [(0, 2); (3, 5)]); ("chr10", [(0, 2)])]%string)
+    [[("chr10", 0, 1); ("chr2", 2, 3); ("chr2", 1, 2); ("chrZ", 0, 100)]]%string
+  = Some [("chr2", 0, 1); ("chr2", 3, 4); ("chr1", 0, 2); ("chr1", 3, 5); ("chr10", 1, 2)]%string.
+Proof. vm_compute. reflexivity. Qed.
+
+(* ------------------------------------------------------------------------------------------
+   Text level: get_regions on the characters of the file.  A well-formed record [wrec_ok] is
+   `>name description` (name without white space, description empty or starting with a
+   blank) followed by sequence lines, each a (possibly empty) stretch of non-blank characters
+   not starting with ">" plus optional trailing blanks -- so blank lines may occur anywhere:
+   inside a sequence, between records, at the end of the file, and ([pre]) before the first
+   header; every physical line ends in LF, CRLF or CR, each line its own ([eols_ok]: a CR is
+   not directly followed by an empty line ending in LF -- that pair is one CRLF).  Whatever
+   the cut of the sequences into lines, get_regions returns, record by record, the maximal
+   non-N runs of the record's sequence under the record's name ('n' is not 'N'). *)
+Theorem C13_text : forall pre recs (pl : list (list ascii * list ascii)),
+  Forall blanks pre -> Forall wrec_ok recs -> map fst pl = pre ++ concat (map w_phys recs) ->
+  Forall (fun le => is_eol (snd le)) pl -> eols_ok pl ->
+  get_regions_text (unchars (join pl)) = Some (flat_map w_expected recs).
+Proof. exact get_regions_text_wellformed. Qed.
+
+(* ... also when the file does not end in a newline *)
+Theorem C13_text_no_final_newline :
+  forall pre recs (pl : list (list ascii * list ascii)) (last : list ascii),
+  Forall blanks pre -> Forall wrec_ok recs -> map fst pl ++ [last] = pre ++ concat (map w_phys recs) ->
+  last <> [] -> Forall (fun le => is_eol (snd le)) pl -> eols_ok pl ->
+  get_regions_text (unchars (join pl ++ last)) = Some (flat_map w_expected recs).
+Proof. exact get_regions_text_no_final_newline. Qed.
+
+(* the record structure for ANY record content (blank lines, leading or inner blanks, ...):
+   a file whose lines are header-led records yields, record by record, the maximal non-N
+   runs of the record's rstripped lines under the header's first token *)
+Theorem C13_text_records : forall recs st,
+  Forall rec_shape recs ->
+  gr_lines st (concat (map rec_lines recs)) = Some (flush st ++ flat_map rec_runs recs).
+Proof. exact gr_lines_records. Qed.
+
+(* lines_of inverts the joining of lines (empty ones included) with their terminators *)
+Theorem C13_lines_of_join : forall pl tail,
+  Forall phys_ok pl -> eols_ok pl -> no_lf_first tail ->
+  lines_of (join pl ++ tail) = map fst pl ++ lines_of tail.
+Proof. exact lines_of_join. Qed.
+
+Example C13_text_example :
+  (* CRLF, a description, trailing blank, lower-case n, no final newline *)
+  get_regions_text
+    (unchars (chars ">chr1 test" ++ [CR; LF] ++ chars "ACGTNnAC " ++ [CR; LF] ++ chars "GTNN" ++ [LF] ++
+              chars ">chrM" ++ [CR] ++ chars "NA"))
+  = Some [("chr1", 0, 4); ("chr1", 5, 10); ("chrM", 1, 2)]%string.
+Proof. vm_compute. reflexivity. Qed.
+
+(* blank lines: the inputs that used to give an empty region (fixed in 784419a) -- a blank
+   line after an N followed by an N, and `>chr1 NN <blank>` -- plus blank lines before the
+   first header, inside a run, between records (white-space-only and CRLF ones) *)
+Example C13_text_blank_lines :
+  get_regions_text (unchars (chars ">chr1" ++ [LF] ++ chars "ACN" ++ [LF; LF] ++ chars "NGT" ++ [LF]))
+  = Some [("chr1", 0, 2); ("chr1", 4, 6)]%string /\
+  get_regions_text (unchars (chars ">chr1" ++ [LF] ++ chars "NN" ++ [LF; LF])) = Some [] /\
+  get_regions_text (unchars ([LF] ++ chars "  " ++ [CR; LF] ++ chars ">chr1" ++ [LF] ++ chars "AC" ++ [LF; LF] ++
+                             chars "GTN" ++ [LF] ++ chars " " ++ [LF; CR; LF] ++ chars ">chr2" ++ [LF; LF] ++ chars "NA" ++ [LF; LF]))
+  = Some [("chr1", 0, 4); ("chr2", 1, 2)]%string.
+Proof. vm_compute. auto. Qed.
+
+(* malformed input, where the model mirrors the code (edge stream of the correspondence
+   check): a non-blank sequence line before the first header fails *)
+Example C13_text_sequence_before_header :
+  get_regions_text (unchars (chars "ACGT" ++ [LF] ++ chars ">chr1" ++ [LF])) = None.
+Proof. vm_compute. auto. Qed.
+
+(* ------------------------------------------------------------------------------------------
+   Source tie.  access.py has no pure scalar helper the function-body translator accepts
+   (get_regions / join_regions are loops over generators, is_canonical_contig_name is a regex
+   search), so the branch structure itself is pinned: the translator regenerates the
+   normalised source of the five functions on every run (docstrings, logging calls and
+   assertion messages removed) and the theorems below state the lines the models were written
+   for -- Model/Access.v scan_line / join_from, Model/AccessText.v gr_step (header branch,
+   split(None, 1)[0][1:], rstrip), Model/AccessPipe.v do_access (filter, one subtract per
+   exclude file, join; `min_gap_size or 0`).  A changed condition, yield, assignment or call
+   in any branch stops the corresponding theorem from compiling. *)
+Theorem C13_source_get_regions :
+  get_regions_src =
+  ["def get_regions(fasta_fname):";
+   "    with open(fasta_fname) as infile:";
+   "        chrom = cursor = run_start = None";
+   "        for line in infile:";
+   "            if line.startswith('>'):";
+   "                if run_start is not None:";
+   "                    yield log_this(chrom, run_start, cursor)";
+   "                chrom = line.split(None, 1)[0][1:]";
+   "                run_start = None";
+   "                cursor = 0";
+   "            else:";
+   "                line = line.rstrip()";
+   "                if not line:";
+   "                    continue";
+   "                if 'N' in line:";
+   "                    if all((c == 'N' for c in line)):";
+   "                        if run_start is not None:";
+   "                            yield log_this(chrom, run_start, cursor)";
+   "                            run_start = None";
+   "                    else:";
+   "                        line_chars = np.array(line, dtype='c')";
+   "                        n_indices = np.where(line_chars == b'N')[0]";
+   "                        if run_start is not None:";
+   "                            yield log_this(chrom, run_start, cursor + n_indices[0])";
+   "                        elif n_indices[0] != 0:";
+   "                            yield log_this(chrom, cursor, cursor + n_indices[0])";
+   "                        gap_mask = np.diff(n_indices) > 1";
+   "                        if gap_mask.any():";
+   "                            ok_starts = n_indices[:-1][gap_mask] + 1 + cursor";
+   "                            ok_ends = n_indices[1:][gap_mask] + cursor";
+   "                            for start, end in zip(ok_starts, ok_ends):";
+   "                                yield log_this(chrom, start, end)";
+   "                        if n_indices[-1] + 1 < len(line_chars):";
+   "                            run_start = cursor + n_indices[-1] + 1";
+   "                        else:";
+   "                            run_start = None";
+   "                elif run_start is None:";
+   "                    run_start = cursor";
+   "                cursor += len(line)";
+   "        if run_start is not None:";
+   "            yield log_this(chrom, run_start, cursor)"]%string.
+Proof. reflexivity. Qed.
+
+Theorem C13_source_log_this :
+  log_this_src =
+  ["def log_this(chrom, run_start, run_end):";
+   "    return (chrom, run_start, run_end)"]%string.
+Proof. reflexivity. Qed.
+
+Theorem C13_source_join_regions :
+  join_regions_src =
+  ["def join_regions(regions, min_gap_size):";
+   "    min_gap_size = min_gap_size or 0";
+   "    for chrom, rows in regions.by_chromosome():";
+   "        coords = iter(zip(rows['start'], rows['end']))";
+   "        prev_start, prev_end = next(coords)";
+   "        for start, end in coords:";
+   "            gap = start - prev_end";
+   "            assert gap > 0";
+   "            if gap < min_gap_size:";
+   "                prev_end = end";
+   "            else:";
+   "                yield (chrom, prev_start, prev_end)";
+   "                prev_start, prev_end = (start, end)";
+   "        yield (chrom, prev_start, prev_end)"]%string.
+Proof. reflexivity. Qed.
+
+Theorem C13_source_do_access :
+  do_access_src =
+  ["def do_access(fa_fname, exclude_fnames=(), min_gap_size=5000, skip_noncanonical=True):";
+   "    fa_regions = get_regions(fa_fname)";
+   "    if skip_noncanonical:";
+   "        fa_regions = drop_noncanonical_contigs(fa_regions)";
+   "    access_regions = GA.from_rows(fa_regions)";
+   "    for ex_fname in exclude_fnames:";
+   "        excluded = tabio.read(ex_fname, 'bed3')";
+   "        access_regions = access_regions.subtract(excluded)";
+   "    return GA.from_rows(join_regions(access_regions, min_gap_size))"]%string.
+Proof. reflexivity. Qed.
+
+Theorem C13_source_drop_noncanonical :
+  drop_noncanonical_src =
+  ["def drop_noncanonical_contigs(region_tups):";
+   "    return (tup for tup in region_tups if is_canonical_contig_name(tup[0]))"]%string.
+Proof. reflexivity. Qed.
